@@ -3,9 +3,12 @@
 the checks of the property it breaks (quick, then thorough if quick is silent). Writes seeded/MATRIX.json."""
 import sys, os, json, subprocess, tempfile, shutil, hashlib, glob, re, time
 V = '/verif'
+# SEEDM_OUT=<file>: write this run's rows there instead of seeded/MATRIX.json (tools/seedmatrix_par.py runs one
+# process per group of properties - replay files are keyed by property, so processes must not share a property)
+OUT = os.environ.get('SEEDM_OUT') or V + '/seeded/MATRIX.json'
 ids = sys.argv[1:] or sorted(os.path.basename(d) for d in glob.glob(V + '/seeded/C*') if os.path.isdir(d))
 try:
-    matrix = json.load(open(V + '/seeded/MATRIX.json'))
+    matrix = json.load(open(OUT))
 except Exception:
     matrix = {}
 for sid in ids:
@@ -45,6 +48,6 @@ for sid in ids:
         for pre in ('target-all-', 'target-default-', 'target-witness-'):
             shutil.rmtree(os.path.join(V, '.cache', pre + h), ignore_errors=True)
     matrix[sid] = row
-    json.dump(matrix, open(V + '/seeded/MATRIX.json', 'w'), indent=1, sort_keys=True)
+    json.dump(matrix, open(OUT, 'w'), indent=1, sort_keys=True)
 missed = [k for k, v in matrix.items() if not v['caught_by']]
 print('seeds', len(matrix), 'missed', missed)
